@@ -20,6 +20,7 @@ import (
 	"context"
 	"fmt"
 	"io"
+	"strings"
 
 	"github.com/containerd/containerd/v2/core/content"
 	"github.com/containerd/containerd/v2/core/images"
@@ -120,12 +121,18 @@ func LayerConvertFunc(opts ...estargz.Option) converter.ConvertFunc {
 			return nil, err
 		}
 		newDesc := desc
-		if uncompress.IsUncompressedType(newDesc.MediaType) {
+		switch {
+		case uncompress.IsUncompressedType(newDesc.MediaType):
 			if images.IsDockerType(newDesc.MediaType) {
 				newDesc.MediaType += ".gzip"
 			} else {
 				newDesc.MediaType += "+gzip"
 			}
+		case strings.HasSuffix(newDesc.MediaType, "+zstd"):
+			// estargz.Build accepts zstd input but always writes gzip
+			newDesc.MediaType = strings.TrimSuffix(newDesc.MediaType, "+zstd") + "+gzip"
+		case strings.HasSuffix(newDesc.MediaType, ".zstd"):
+			newDesc.MediaType = strings.TrimSuffix(newDesc.MediaType, ".zstd") + ".gzip"
 		}
 		newDesc.Digest = w.Digest()
 		newDesc.Size = n
